@@ -17,6 +17,11 @@ Mirrors (after the `fix:` commit recorded in props/C06.findings.json):
         while_loop(max_steps = time_steps_total, cond = end_time > t, body = forward(record_detectors))
                                                                                        = `customForward`
         (as found the iteration bound is the TOTAL step count, whatever start/end are)
+        `record_detectors` only selects the step function (`forward(record_detectors=…)`); the optional reset is the
+        full `arrays.reset()` whatever the flag is                                      = `customForwardRD`
+  detector recording as seen by the reset/record bookkeeping: a detector state is a list of rows, row i is written
+        by `forward` (when recording) at the steps listed for it — one step per row for the row-per-on-step
+        detectors, all on-steps for the accumulating ones (PhasorDetector)              = `Tag`, `recordBody`
 
 The container is a record of flat lists of scalars (the pytree leaves, flattened); shapes are the list
 lengths.  Scalars are generic (`[Mul α] [OfNat α 0]`): `Float` in the driver, a field or the extended
@@ -66,6 +71,28 @@ def customForward {σ : Type} (T : Nat) (resetContainer : Bool) (reset : σ → 
     (start stop : Nat) (a : σ) : Nat × σ :=
   whileLoop (fun s => decide (stop > s.1)) (step body) T (start, if resetContainer then reset a else a)
 
+/-- `custom_fdtd_forward` with the `record_detectors` flag explicit: it chooses the step function and nothing else -/
+def customForwardRD {σ : Type} (T : Nat) (resetContainer recordDetectors : Bool) (reset : σ → σ)
+    (body : Bool → Nat → σ → σ) (start stop : Nat) (a : σ) : Nat × σ :=
+  customForward T resetContainer reset (body recordDetectors) start stop a
+
+/-- provenance of one detector-state row: the literal zero, the value the container held before the call, or a value
+written by `forward` during the call -/
+inductive Tag where
+  | zero
+  | kept (i : Nat)
+  | recorded
+  deriving DecidableEq, Repr
+
+instance : OfNat Tag 0 := ⟨.zero⟩
+
+/-- `forward(record_detectors = rd)` on provenance tags: row i is (over)written at step t iff recording and
+t is one of the steps of row i; fields are written at every step -/
+def recordBody (rows : List (List Nat)) (rd : Bool) (t : Nat) (c : Container Tag) : Container Tag :=
+  { c with
+    fields := c.fields.map (fun _ => Tag.recorded)
+    det := if rd then (c.det.zip rows).map (fun (v, steps) => if steps.contains t then Tag.recorded else v) else c.det }
+
 /-- a history of consecutive partial runs `a_0 → a_1 → … → a_n` on the same container (no reset in between) -/
 def runHistory {σ : Type} (T : Nat) (body : Nat → σ → σ) : List Nat → Nat × σ → Nat × σ
   | a :: b :: rest, s => runHistory T body (b :: rest) (customForward T false id body a b s.2)
@@ -77,6 +104,14 @@ open Proto
 def showRec : Option (List Float) → String
   | none => "none"
   | some l => "some " ++ showFloats l
+
+def parseRow (s : String) : Option (List Nat) :=
+  if s = "-" then some [] else (s.splitOn ",").mapM parseNat
+
+def showTag : Tag → String
+  | .zero => "z"
+  | .kept i => s!"k{i}"
+  | .recorded => "r"
 
 def resetOp (asFound : Bool) : List String → String
   | rd :: rr :: nF :: nD :: nR :: nM :: vs =>
@@ -98,6 +133,10 @@ def resetOp (asFound : Bool) : List String → String
                                  earlier entries: `final t | executed steps` (the log keeps the earlier entries
                                  unless reset = 1)
   `hist T a0 a1 … an`          → consecutive partial runs from a reset container: `final t | executed steps`
+  `cfrd T start stop reset rd row…` → custom_fdtd_forward(reset_container, record_detectors) on a container whose
+                                 detector rows hold earlier values; each `row` token lists the steps that write the row
+                                 (`3`, `0,3,6`, `-` for none): `final t | tag per row` with z = exactly zero,
+                                 k<i> = the earlier value of row i, r = written during the call
   `resetasfound …`             → same arguments as `reset`, the pinned tree's `v*0` behaviour
   `reset rd rr nF nD nR nM v…` → Container.reset with flags rd, rr on nF field, nD detector, nR recording
                                  (nR = 0 with rr… see below) and nM material values (binary64 bit patterns):
@@ -117,6 +156,14 @@ def handle : List String → String
       match pts with
       | [] => "bad-op"
       | a0 :: _ => showRun (runHistory T logBody pts (a0, ([] : List Nat)))
+    | _, _ => "bad-op"
+  | "cfrd" :: T :: start :: stop :: rs :: rd :: rows =>
+    match natsOf [T, start, stop, rs, rd], rows.mapM parseRow with
+    | some [T, start, stop, rs, rd], some rows =>
+      if rs > 1 ∨ rd > 1 then "bad-op" else
+      let c : Container Tag := { fields := [Tag.kept 0], det := (List.range rows.length).map Tag.kept, recording := none, mat := [] }
+      let r := customForwardRD T (rs == 1) (rd == 1) (fun x => x.reset) (recordBody rows) start stop c
+      s!"{r.1} | {joinSp (r.2.det.map showTag)}"
     | _, _ => "bad-op"
   | "reset" :: rest => resetOp false rest
   | "resetasfound" :: rest => resetOp true rest
